@@ -42,6 +42,10 @@ PUBLISHED_T = {'type': 'peatclsm', 'Ksmacz0': 7.3, 'alpha': 3, 'zeta_max_cm': 1.
 
 def peatclsm_sy(rng):
     mode = rng.random()
+    if mode > 0.85:
+        # integer-valued parameters, as `theta_s: 1` / `b: 7` load from YAML
+        return {'type': 'peatclsm', 'sd': rng.choice([1, 2, 0.162]), 'theta_s': rng.choice([1, 1, 0.88]),
+                'b': rng.choice([1, 7, 20, 7.4]), 'psi_s': rng.choice([-1, -0.024])}
     if mode < 0.15:
         # corners of the PEST bounds
         return {'type': 'peatclsm', 'sd': rng.choice([1e-3, 2.0]), 'theta_s': rng.choice([0.01, 1.0]),
@@ -51,8 +55,8 @@ def peatclsm_sy(rng):
 
 
 def peatclsm_T(rng):
-    return {'type': 'peatclsm', 'Ksmacz0': 10 ** rng.uniform(-4, 5), 'alpha': rng.choice([rng.uniform(1.01, 20.0), 3, 2, 1.5]),
-            'zeta_max_cm': rng.choice([1.0, 0.0, 5.0, rng.uniform(-10, 30)])}
+    return {'type': 'peatclsm', 'Ksmacz0': rng.choice([10 ** rng.uniform(-4, 5), 7, 1]), 'alpha': rng.choice([rng.uniform(1.01, 20.0), 3, 2, 1.5]),
+            'zeta_max_cm': rng.choice([1.0, 0.0, 5.0, 1, 0, rng.uniform(-10, 30)])}
 
 
 def level_grid(rng, lo, hi, n=None, beyond=True):
